@@ -135,3 +135,13 @@ Proof.
   destruct (now n + dt <? x) eqn:A; [|discriminate].
   intros _. assert (now n + dt <? x + 5 = true) as -> by lia. reflexivity.
 Qed.
+
+(* no upper bound on the expiry anywhere above; and from one second on the TTL is at least one second, so
+   SETEX never degenerates into "no expiry" *)
+Lemma ttl_positive f e : draw_ok f -> dur_ok e -> sec <= e -> 1 <= ceil_secs (around f e).
+Proof.
+  intros Hf He Hs. pose proof (ttl_window f e Hf He) as [L _]. eapply Z.le_trans; [|exact L].
+  unfold ttl_lo, ceil_secs. destruct He as [_ Hm].
+  assert (E : e = 20 * (e / 20)) by (pose proof (Z.div_mod e 20); lia).
+  apply Z.div_le_lower_bound; unfold sec in *; lia.
+Qed.
